@@ -68,7 +68,7 @@ class InitMethod(MethodDescriptor):
                             # A keyword named like the overflow attribute is
                             # overflow content (handled below), not its value.
                             continue
-                        if attr in kwargs:
+                        if kwargs.get(attr, MISSING) is not MISSING:
                             parent_kwargs[attr] = kwargs.pop(attr)
                             if not instance_attr_spec.do_not_copy:
                                 parent_kwargs[attr] = protect_via_deepcopy(
